@@ -4,7 +4,7 @@
 VERUS_TRUST = [
     'A3: vstd specifications of Vec, HashMap, slices, arrays (assumed to describe std)',
     'A4: Z3 4.12 and the Verus VC generator / Rust front end',
-    'extraction: tools/weave.py copies item text verbatim from /repo/src and applies only the desugaring rules R0-R43 and lift options of DESIGN.md 2.2 (applications counted per function in functions_under_contract)',
+    'extraction: tools/weave.py copies item text verbatim from /repo/src and applies only the desugaring rules R0-R44 and lift options of DESIGN.md 2.2 (applications counted per function in functions_under_contract)',
 ]
 
 PROPS = {
@@ -338,6 +338,38 @@ PROPS = {
                     'TypedStmt::compile VarAssign (read-modify-write through nested accessors), LetMut / Let pattern bindings',
                     'the per-path clones and merges of If / Match / JoinLoop / && / ||, the scopes of Block / FnCall / ForEachLoop (compile.rs)',
                     'the type checker\'s own use of Env (check.rs)'],
+    ),
+    'C11': dict(
+        units=['bristol'],
+        deps=[],
+        witness=['c11', '--circuits', '1200'],
+        witness_thorough=['c11', '--circuits', '60000', '--mutations', '120'],
+        level='proof',
+        technique='Verus contract on the wire renumbering of Circuit::format_as_bristol (the statements that build wires_map, lifted from between the '
+                  'file-writing parts); bounded differential of export / independent reader / import on the real functions, and malformed-file import',
+        claim='Deductive proof (Verus/Z3), for every wire count, input count and output list without repetitions whose wires are non-input wires of '
+              'the circuit, of the renumbering that format_as_bristol applies to every wire it writes: input wires keep their numbers; output j of the '
+              'list becomes wire (number of wires - number of outputs + j), i.e. the outputs are the LAST wires in the order of the output list; '
+              'every other wire moves down by the number of outputs before it, stays below the outputs and keeps its relative order; no two wires get '
+              'the same number (with a pigeonhole lemma: distinct output wires below the wire count are counted once each). NOT under contract - file '
+              'I/O, formatting and parsing have no specification in Verus and the two functions interleave them with the logic: the de-aliasing of '
+              'repeated outputs (HashSet + Option::get_or_insert_with + clone of the circuit), the header counts, the gate lines, and the whole importer. '
+              'As the labelled bounded stand-in on the real functions: random SSA circuits (1-3 parties, up to 6 input bits, up to 14 gates, 161 arbitrary '
+              'panic outputs, 1-5 outputs with repetitions and outputs that feed later gates) and compiled programs are exported; the text is read by an '
+              'independent reader that checks well-formedness (declared gate and wire counts, every non-input wire assigned exactly once and before '
+              'use, outputs = the last wires) and evaluates it; the file is imported again; circuit, text and re-imported circuit are compared on '
+              'EVERY input assignment; an output that is an input wire must be refused; token / line mutations of valid exports (hostile numbers, '
+              'deleted / duplicated / swapped tokens and lines, truncation, random token lines, absurd but mutually consistent sizes) must be imported '
+              'to a circuit or an error, never a panic.',
+        note='Trusted: collecting (value, index) pairs into a HashMap maps every element to the last index at which it occurs (R44, external_body '
+             'helper); vstd (Vec, HashMap::get for usize keys); that the caller establishes the precondition (outputs de-aliased and not input wires) is '
+             'checked only by the bounded part; `.iter_mut().take(N).enumerate()` / `.enumerate().skip(N)` are rewritten to index loops (R30, R30b); '
+             'rules R1, R5d, R5e. Oracle of the bounded part: the reader / evaluator in replay/src/c11.rs. Large but allocatable declared sizes '
+             '(gigabytes) are a resource question outside the property and are not generated.',
+        title='Bristol export: the wire renumbering puts the outputs last in order, keeps inputs and the order of the other wires, and is injective '
+              '(proved); export / import round trip, well-formedness of the text and panic-freedom of the importer by bounded differential',
+        unverified=['Circuit::format_as_bristol outside the renumbering: de-aliasing of repeated outputs, header, gate lines (file I/O)',
+                    'Circuit::bristol_to_garble, parse_line (str parsing, file I/O)', 'compile_to_bristol / compile_bristol_to_circuit wrappers'],
     ),
     'C12': dict(
         units=['consts'],
